@@ -123,6 +123,7 @@ def genCoef (n seed i : Nat) (kind : String) : Option Nat :=
   else if kind = "o" then some (1 % n)
   else if kind = "s" then some (if h % 8 = 0 then h ^ 9 % n else 0)
   else if kind = "b" then some (if h % 2 = 0 then n - 1 else 0)
+  else if kind = "t" then some (if h % 2048 = 0 then h ^ 9 % n else 0)
   else none
 
 end Ymq.PolySpec
